@@ -10,7 +10,11 @@
 (* fitted object, on a pickled-and-restored copy ("pickle"), on a twin built  *)
 (* with equal parameters and fitted on equal data ("twin"), and on a twin     *)
 (* fitted/applied with another n_jobs ("jobs").  Every Apply must stutter on  *)
-(* est and data and return the result remembered for m.                       *)
+(* est and data and return the result remembered for m.  Fit2: the same object  *)
+(* is fitted AGAIN, on other data (a new caller object with fingerprint e.d2):    *)
+(* what it returns from then on is what a fresh estimator with equal parameters   *)
+(* fitted on that data alone returns ("fresh") -- nothing of the first fit        *)
+(* survives.                                                                      *)
 (***************************************************************************)
 EXTENDS Integers, Sequences, FiniteSets, TLC
 
@@ -28,13 +32,16 @@ ApplyOk(e) == /\ est # 0
               /\ (e.op = "apply" => e.efp = est)             \* ... nor the estimator
               /\ SameResult(e)
 Apply(e) == /\ ApplyOk(e) /\ res' = [res EXCEPT ![e.m] = e.rfp] /\ UNCHANGED <<est, data>>
+Fit2(e) == /\ est # 0 /\ e.dfp = e.d2                        \* the second fit does not modify its data either
+           /\ est' = e.efp /\ data' = e.d2 /\ res' = [m \in Methods |-> 0]
 PClause(e) ==
-    IF e.op = "fit" THEN "FitLeavesCallerDataUnchanged"
+    IF e.op \in {"fit", "fit2"} THEN "FitLeavesCallerDataUnchanged"
     ELSE IF e.dfp # data THEN "ApplyLeavesCallerDataUnchanged"
     ELSE IF e.op = "apply" /\ e.efp # est THEN "ApplyLeavesEstimatorUnchanged"
     ELSE CASE e.op = "apply" -> "SameCallSameResult"
            [] e.op = "pickle" -> "PickledCopyEqualResult"
            [] e.op = "twin" -> "EqualParamsEqualDataEqualResult"
            [] e.op = "jobs" -> "ResultIndependentOfNJobs"
+           [] e.op = "fresh" -> "RefittedEqualsFreshlyFitted"
            [] OTHER -> "UnknownOperation"
 =============================================================================
